@@ -368,3 +368,5 @@ func VerifHarness_C01_rt_group() {
 		verifRoundTrip(p, c, td, "C01.rt")
 	}
 }
+
+// ======================= logs =======================
